@@ -8,7 +8,8 @@
    7f110fb); the theorems are stated at full strength for the repaired code. *)
 From Coq Require Import Reals List String.
 From SpdVerif Require Import Base.Rx Base.PolingBase Gen.Poling Gen.Sweep Spec.SweepPaths Model.Sweep
-  Proofs.C18_table Proofs.C18_frame Proofs.C18_sweep Proofs.C18_all Proofs.C18_external.
+  Proofs.C18_table Proofs.C18_frame Proofs.C18_sweep Proofs.C18_all Proofs.C18_external Proofs.C18_normspectrum.
+From SpdVerif Require Base.CfgNumOps Model.NumInst Model.ConfigTypes Model.Config Model.NormSpectrum.
 From SpdVerif Require Model.Optics Model.Fresnel Gen.Beam Proofs.C13_snell.
 Import ListNotations.
 Local Open Scope R_scope.
@@ -140,6 +141,30 @@ Proof.
          (fun opt H Hr => normalized_some base s1 s2 jsa2 nrm opt_of x0 x1 nx y0 y1 ny opt H Hr)).
 Qed.
 
+(* the generated sweep spectra ARE C20's modelled ones (Model/NormSpectrum.v, where try_as_optimum is the modelled optimisation):
+   for every translation tr of setups between the two record models compatible with the kernels (centre frequencies, |jsa_raw|^2,
+   jsi_normalization) and every base whose optimum the oracle and the model agree on *)
+Theorem C18_values_are_C20_model : forall K minpos op oi jsa_raw norm_jsi freq jsa2 nrm opt_of tr,
+  (forall s, Model.NormSpectrum.center freq (tr s) = (b_frequency (s_signal s), b_frequency (s_idler s))) ->
+  (forall s ws wi, (Coquelicot.Complex.Cmod (jsa_raw (tr s) ws wi)) ^ 2 = jsa2 ws wi s) ->
+  (forall s ws wi, norm_jsi (tr s) ws wi = nrm ws wi s) ->
+  forall base setter1 setter2 x0 x1 nx y0 y1 ny,
+  Model.NormSpectrum.jsi_values jsa_raw norm_jsi freq (map tr (spdc_iter_into_iter base setter1 setter2 x0 x1 nx y0 y1 ny)) =
+    spdc_iter_jsi_values jsa2 nrm base setter1 setter2 x0 x1 nx y0 y1 ny /\
+  (forall opt nf, opt_of base = Some opt ->
+     Model.Config.try_as_optimum Model.NumInst.R_ops K minpos op oi (tr base) = Model.ConfigTypes.Ok (tr opt, nf) ->
+     Model.NormSpectrum.jsi_values_normalized K minpos op oi jsa_raw norm_jsi freq (tr base)
+       (map tr (spdc_iter_into_iter base setter1 setter2 x0 x1 nx y0 y1 ny)) =
+     match spdc_iter_jsi_values_normalized jsa2 nrm opt_of base setter1 setter2 x0 x1 nx y0 y1 ny with
+     | Some l => Model.ConfigTypes.Ok l
+     | None => Model.ConfigTypes.Panic Model.ConfigTypes.SiteOptimumUnwrap
+     end).
+Proof.
+  exact (fun K minpos op oi jsa_raw norm_jsi freq jsa2 nrm opt_of tr Hc Hj Hn base s1 s2 x0 x1 nx y0 y1 ny =>
+    conj (raw_values_agree jsa_raw norm_jsi freq jsa2 nrm tr Hc Hj Hn base s1 s2 x0 x1 nx y0 y1 ny)
+         (fun opt nf Hg H20 => normalized_agree K minpos op oi jsa_raw norm_jsi freq jsa2 nrm opt_of tr Hc Hj Hn base s1 s2 x0 x1 nx y0 y1 ny opt nf Hg H20)).
+Qed.
+
 (* ---- non-vacuity ---- *)
 Example C18_nonvacuous_entry : In ("signal.wavelength_nm"%string, (SBeamWavelength BSignal, UNm)) spec_table /\
   In ("pump.frequency_thz"%string, (SBeamFrequency BPump, UThz)) spec_table /\ SBeamWavelength BSignal <> SPolingPeriod.
@@ -170,3 +195,4 @@ Print Assumptions C18_order.
 Print Assumptions C18_grid.
 Print Assumptions C18_values.
 Print Assumptions C18_values_normalized.
+Print Assumptions C18_values_are_C20_model.
